@@ -144,8 +144,10 @@ class Gen:
             a = self.expr(d, "real", allow_indep)
             b = self.expr(rng.choice([0, d]), "real", allow_indep)
             v = rng.choice(POOL)
-            if v not in free(a) | free(b):
-                a = self.force(a, "real", v)
+            # keep away from the open finding KF-contraction-absent-var (a reduced variable that ends up in NO operand
+            # after partial evaluation loses its multiplicity): v always occurs in a plain leaf factor of `b`
+            if not (b[0] == "leaf" and v in b[2]):
+                b = ("binary", "mul", b, self.leaf("real", [v]))
             red, bin_ = rng.choice([("add", "mul"), ("add", "mul"), ("max", "add"), ("min", "add")])
             return ("contr", red, bin_, v, a, b)
         if c == "subs":
@@ -631,6 +633,8 @@ def impl_table(val, ins, n):
     if not isinstance(val, (Tensor, Number)):
         return None
     tab = futil.table(val, [(x, n) for x in ins])
+    if tab.shape != (n,) * len(ins):
+        return ("wrong-output-shape", tuple(tab.shape[len(ins):]))     # every recipe denotes a scalar
     return [exact(tab[p]) for p in table_points(ins, n)]
 
 
@@ -639,7 +643,9 @@ def py_table(r, ins, n, xval):
 
 
 def tables_same(a, b):
-    return a is not None and b is not None and len(a) == len(b) and all(same_num(x, y) for x, y in zip(a, b))
+    if not isinstance(a, list) or not isinstance(b, list):
+        return False
+    return len(a) == len(b) and all(same_num(x, y) for x, y in zip(a, b))
 
 
 def lean_request(r, ins, n, xval):
@@ -771,6 +777,76 @@ def clean_stream(ctx, ncases):
         if len(ins) > 3:
             continue
         cases.append((n, r, xval, ins))
+    check_cases(ctx, cases, "random")
+
+
+CONS = ["reduce", "lamget", "cat", "contr", "subs", "indep"]
+
+
+def mk(g, cons, v, w, body):
+    """one binder constructor around `body` with binder name v and auxiliary name w (deterministic shape)"""
+    n = g.n
+    if cons == "reduce":
+        return ("reduce", "add", g.force(body, "real", v), v)
+    if cons == "lamget":
+        return ("lamget", v, body, ("bvar", w))
+    if cons == "contr":
+        return ("contr", "add", "mul", v, body, g.leaf("real", [v] if v == w else [v, w]))
+    if cons == "subs":
+        return ("subs", g.force(body, "real", v), v, ("bvar", w))
+    if cons == "indep":
+        if has_indep(body):
+            return None
+        return ("indep", g.force(body, "real", v), v, "x" if w == "i" else "y")
+    if cons == "cat":
+        p = w
+        if p != v and v in free(body):
+            body = ("subs", body, v, ("bnum", 0))
+        part1 = g.force(body, "real", p)
+        part2 = g.leaf("real", [p])
+        return ("cat", v, p, part1, part2, ("bnum2", 1 + (len(v + w) + ord(w[0])) % (2 * n - 1)))
+    raise ValueError(cons)
+
+
+def enum_stream(ctx):
+    """systematic part: every ordered nesting of two (thorough: sampled three) binder constructors around a
+    leaf over the whole pool, with EVERY assignment of pool names to the binders and auxiliary names"""
+    rng = ctx.rng
+    quick = ctx.tier == "quick"
+    cases = []
+    n = 2
+    g = Gen(rng, n)
+    base = g.leaf("real", list(POOL))
+    for c_in, c_out in itertools.product(CONS, CONS):
+        for v_in, v_out, w_in in itertools.product(POOL, POOL, POOL):
+            for w_out in (POOL if not quick else [POOL[(POOL.index(w_in) + 1) % 3]]):
+                inner = mk(g, c_in, v_in, w_in, base)
+                if inner is None:
+                    continue
+                outer = mk(g, c_out, v_out, w_out, inner)
+                if outer is None:
+                    continue
+                ins = sorted(free(outer))
+                xval = (1, 2) if has_indep(outer) else None
+                cases.append((n, outer, xval, ins))
+    n_exh = len(cases)
+    if not quick:
+        triples = list(itertools.product(CONS, CONS, CONS))
+        for _ in range(6000):
+            c1, c2, c3 = rng.choice(triples)
+            names = [rng.choice(POOL) for _ in range(6)]
+            t1 = mk(g, c1, names[0], names[1], base)
+            t2 = mk(g, c2, names[2], names[3], t1) if t1 is not None else None
+            t3 = mk(g, c3, names[4], names[5], t2) if t2 is not None else None
+            if t3 is None:
+                continue
+            ins = sorted(free(t3))
+            cases.append((n, t3, (1, 2) if has_indep(t3) else None, ins))
+    ctx.count("enumerated:two-level-nestings-x-name-assignments", n_exh)
+    check_cases(ctx, cases, "enum")
+
+
+def check_cases(ctx, cases, stream):
     reqs = []
     for n, r, xval, ins in cases:
         r2 = rename_binders(r)
@@ -786,6 +862,7 @@ def clean_stream(ctx, ncases):
             ctx.infra_errors.append(f"driver: {a_user[:200]} / {a_ren[:200]} for {describe(r)}")
             continue
         d = depth_of(r)
+        ctx.count(f"stream:{stream}")
         ctx.count(f"depth:{d}")
         ctx.count(f"root:{r[0]}")
         ctx.count(f"size:{n}")
@@ -821,10 +898,9 @@ def clean_stream(ctx, ncases):
         try:
             syn = syntax(r, n)
         except DECLINE + (RecursionError,) as e:
-            ctx.count(f"ill-formed:{type(e).__name__}")
-            ctx.case()
-            continue
-        nm = check_names(syn, free(r), {"x"} if has_indep(r) else set())
+            ctx.count(f"reflect-construction-declined:{type(e).__name__}")
+            syn = None
+        nm = check_names(syn, free(r), {"x"} if has_indep(r) else set()) if syn is not None else None
         if nm:
             ctx.fail("input", f"C05.{nm[0]}", witness={"n": n, "recipe": describe(r)}, expected="bound ∩ inputs = ∅, "
                      "binders marked, inputs = user-level free names", got=nm[1],
@@ -833,7 +909,7 @@ def clean_stream(ctx, ncases):
             continue
         # model fidelity of reflect/_alpha_mangle (counted, not gated)
         m = re.match(r"ok \(([^)]*)\) (\d+) ", a_mangle)
-        if m:
+        if m and syn is not None:
             lean_names = re.findall(r'"([^"]*)"', m.group(1))
             lean_base = sorted(re.sub(r"__BOUND_\d+$", "", b) for b in lean_names)
             impl_base, impl_distinct = binder_pattern(syn)
@@ -843,8 +919,10 @@ def clean_stream(ctx, ncases):
         # --- values under every exact interpretation
         bad = None
         got_value = False
+        outcome = {}
         for mode in MODES:
             st, val = run_mode(r, n, mode, xval)
+            outcome[mode] = st if st != "value" else ("value" if isinstance(val, (Tensor, Number)) else "lazy")
             if st != "value":
                 ctx.count(f"{mode}:declined:{val}")
                 continue
@@ -866,7 +944,25 @@ def clean_stream(ctx, ncases):
             continue
         # --- renaming invariance of the implementation (fresh distinct binder names)
         r2 = rename_binders(r)
-        st, val2 = run_mode(r2, n, "eager", xval)
+        # the user's choice of bound names must not decide WHETHER a value is returned either
+        asym = None
+        for mode in ("reflect", "eager"):
+            st, val2 = run_mode(r2, n, mode, xval)
+            o2 = st if st != "value" else ("value" if isinstance(val2, (Tensor, Number)) else "lazy")
+            if {outcome[mode], o2} == {"declined", "value"}:
+                asym = (mode, outcome[mode], o2)
+                break
+            if outcome[mode] != o2:
+                ctx.count(f"renamed:{mode}:outcome-differs-lazy-vs-value")
+        if asym:
+            which = r if asym[1] == "declined" else r2
+            ctx.fail("input", "C05.name-choice-changes-outcome",
+                     witness={"n": n, "recipe": describe(r), "renamed": describe(r2), "mode": asym[0], "x": xval},
+                     expected=f"same outcome for both choices of bound names (fresh names: {asym[2]})",
+                     got=f"user names: {asym[1]}",
+                     python=py_program(which, n, asym[0], xval).replace("print(r, r.inputs)", "print(r, r.inputs)  # raises") +
+                     "FAILS = False  # reaching this line means the construction no longer raises\n")
+            continue
         if st == "value":
             extra = set(val2.inputs) - set(ins)
             tab2 = impl_table(val2, ins, n) if not extra else None
@@ -1126,7 +1222,8 @@ def correspond(ctx):
                 "for bound∩inputs=∅ / markers / inputs. Non-trivial = binder depth >= 2, some value returned, and a binder "
                 "name that is also free somewhere in the expression or bound twice; distinct by full content." %
                 (3 if quick else 4))
-    clean_stream(ctx, 900 if quick else 9000)
+    enum_stream(ctx)
+    clean_stream(ctx, 1200 if quick else 12000)
     extras_stream(ctx, 80 if quick else 600)
     shared_binder_stream(ctx)
     approximate_stream(ctx)
